@@ -625,3 +625,332 @@ Theorem header_refuted_on_repr :
 Proof.
   exists [105%N], [71%N], [GConst [78%N]]. rewrite header_iff. intros [H|H]; discriminate.
 Qed.
+
+(* ================================================================== growth round *)
+
+(* ------------------------------------------------------------------ round trip through the cast *)
+
+(** `E::try_from(v as repr) == Ok(v)` for every field-less variant *)
+Theorem roundtrip paren t vs tbl f i v d :
+  enum_accepted t vs tbl -> splice_ok paren vs -> try_from paren t vs = Some f ->
+  nth_error tbl i = Some (v, d) -> fieldless v = true -> cast_at tbl i = Some d /\ f d = Ok v.
+Proof.
+  intros Ha Hs Hf Hn Hfl. split; [unfold cast_at; rewrite Hn; reflexivity|].
+  apply (inverse paren t vs tbl f Ha Hs Hf). split; [exact Hfl | eapply nth_error_In; exact Hn].
+Qed.
+
+(** ... and a success is a cast: `try_from(n) == Ok(v)` implies `v as repr == n` for a declared v *)
+Theorem ok_is_cast paren t vs tbl f n v :
+  enum_accepted t vs tbl -> splice_ok paren vs -> try_from paren t vs = Some f ->
+  f n = Ok v -> fieldless v = true /\ exists i, nth_error tbl i = Some (v, n) /\ cast_at tbl i = Some n /\ nth_error vs i = Some v.
+Proof.
+  intros Ha Hs Hf Hok. apply (inverse paren t vs tbl f Ha Hs Hf) in Hok as [Hfl HI]. split; [exact Hfl|].
+  apply In_nth_error in HI as [i Hi]. exists i. split; [exact Hi|]. split; [unfold cast_at; rewrite Hi; reflexivity|].
+  rewrite <- (proj1 (table_lists_variants t vs tbl (proj1 Ha))). apply (map_nth_error fst i tbl Hi).
+Qed.
+
+(** a variant WITH fields is never produced, whatever its discriminant *)
+Lemma consts_only_fieldless paren t : forall vs last inc ctbl v n,
+  eval_consts t (gen_consts paren last inc vs) = Some ctbl -> In (v, n) ctbl -> fieldless v = true.
+Proof.
+  induction vs as [|w vs IH]; intros last inc ctbl v n Ec Hok; cbn [gen_consts] in Ec.
+  - cbn in Ec. inversion Ec; subst. destruct Hok.
+  - destruct (fieldless w) eqn:Fw.
+    + cbn [eval_consts] in Ec. apply obind_some in Ec as [c [_ Ec]]. apply obind_some in Ec as [ctl [Ec E]].
+      inversion E; subst ctbl. destruct Hok as [Hok|Hok]; [inversion Hok; subst; exact Fw | eapply IH; eauto].
+    + eapply IH; eauto.
+Qed.
+
+Theorem fielded_never_ok paren t vs f n v :
+  try_from paren t vs = Some f -> f n = Ok v -> fieldless v = true.
+Proof.
+  unfold try_from, consts.
+  destruct (eval_consts t (gen_consts paren (ELit 0) 0 vs)) as [ctbl|] eqn:Ec; [|cbn; discriminate].
+  cbn. intros Hf Hok. inversion Hf; subst f; clear Hf. apply first_match_ok_in in Hok.
+  eapply consts_only_fieldless; eauto.
+Qed.
+
+(** an enum without any field-less variant: the expansion always compiles and every input is Err *)
+Lemma gen_consts_no_fieldless paren : forall vs last inc,
+  (forall v, In v vs -> fieldless v = false) -> gen_consts paren last inc vs = [].
+Proof.
+  induction vs as [|v vs IH]; intros last inc H; [reflexivity|]. cbn [gen_consts].
+  rewrite (H v (or_introl eq_refl)). apply IH. intros w Hw. apply H. right; exact Hw.
+Qed.
+
+Theorem no_fieldless_always_err paren t vs :
+  (forall v, In v vs -> fieldless v = false) ->
+  exists f, try_from paren t vs = Some f /\ forall n, f n = Err n.
+Proof.
+  intros H. unfold try_from, consts. rewrite (gen_consts_no_fieldless paren vs _ _ H). cbn.
+  eexists. split; [reflexivity|]. intros n. reflexivity.
+Qed.
+
+(* ------------------------------------------------------------------ two's complement wrap-around (`as`, `<<`) *)
+
+Ltac pow2 := repeat match goal with
+  | |- context [2 ^ ?k] => let v := eval vm_compute in (2 ^ k) in change (2 ^ k) with v
+  | H : context [2 ^ ?k] |- _ => let v := eval vm_compute in (2 ^ k) in change (2 ^ k) with v in H
+  end.
+
+(** the wrapped value is a value of the type *)
+Theorem wrap_in_range t z : in_range t (wrap t z) = true.
+Proof.
+  apply in_range_iff. unfold wrap, lo, hi.
+  pose proof (Z.mod_pos_bound z (2 ^ bits t)) as B.
+  destruct t; cbn [bits signed andb] in *; pow2; cbn [Z.sub Z.add Z.opp Z.pos_sub Pos.pred_double] in *;
+    try (specialize (B eq_refl); lia);
+    match goal with |- context [?a <=? ?b] => destruct (Z.leb_spec a b) end; specialize (B eq_refl); lia.
+Qed.
+
+(** ... it differs from the argument by a multiple of 2^bits *)
+Theorem wrap_congruent t z : exists k, wrap t z = z + k * 2 ^ bits t.
+Proof.
+  unfold wrap. pose proof (Z.div_mod z (2 ^ bits t)) as D.
+  assert (P : 2 ^ bits t <> 0) by (destruct t; vm_compute; discriminate). specialize (D P).
+  destruct (signed t && (2 ^ (bits t - 1) <=? z mod 2 ^ bits t)).
+  - exists (- (z / 2 ^ bits t) - 1). lia.
+  - exists (- (z / 2 ^ bits t)). lia.
+Qed.
+
+(** ... and it is the argument itself when that already is a value of the type *)
+Theorem wrap_id t z : in_range t z = true -> wrap t z = z.
+Proof.
+  intros H. apply in_range_iff in H. unfold wrap, lo, hi in *.
+  destruct (Z_lt_le_dec z 0) as [Neg|Pos].
+  - (* negative: only signed types *)
+    assert (S : signed t = true) by (destruct (signed t); [reflexivity | lia]). rewrite S in *. cbn [andb].
+    assert (M : z mod 2 ^ bits t = z + 2 ^ bits t).
+    { symmetry. apply (Z.mod_unique z (2 ^ bits t) (-1) (z + 2 ^ bits t)); [left|lia].
+      destruct t; try discriminate; cbn [bits] in *; pow2; lia. }
+    rewrite M. destruct (Z.leb_spec (2 ^ (bits t - 1)) (z + 2 ^ bits t)); [lia|].
+    exfalso. destruct t; try discriminate; cbn [bits] in *; pow2; lia.
+  - assert (M : z mod 2 ^ bits t = z).
+    { apply Z.mod_small. destruct t; cbn [bits signed] in *; pow2; lia. }
+    rewrite M. destruct (signed t) eqn:S; cbn [andb]; [|reflexivity].
+    destruct (Z.leb_spec (2 ^ (bits t - 1)) z); [|reflexivity].
+    exfalso. destruct t; try discriminate; cbn [bits] in *; pow2; lia.
+Qed.
+
+(** the two extremes wrap into each other: MAX + 1 is MIN, MIN - 1 is MAX *)
+Theorem wrap_limits t : wrap t (hi t + 1) = lo t /\ wrap t (lo t - 1) = hi t.
+Proof. destruct t; vm_compute; split; reflexivity. Qed.
+
+(** an implicit discriminant never wraps: after MAX rustc (and the table) reject the enum *)
+Theorem no_implicit_wrap t v vs : vdiscr v = None -> rust_table t (hi t + 1) (v :: vs) = None.
+Proof.
+  intros H. cbn [rust_table]. rewrite H. unfold check.
+  replace (in_range t (hi t + 1)) with false; [reflexivity|].
+  symmetry. destruct (in_range t (hi t + 1)) eqn:E; [|reflexivity]. apply in_range_iff in E. lia.
+Qed.
+
+(* ------------------------------------------------------------------ any evaluator *)
+
+Section AnyEvaluatorProofs.
+  Variable t : ity.
+  Variable ev : expr -> option Z.
+  Hypothesis EV : evaluator_ok t ev.
+
+  Lemma ev_splice e k : ev (splice true e k) = sum_checked t (ev e) k.
+  Proof. destruct EV as [Ha [Hp _]]. unfold splice, sum_checked. rewrite Ha, Hp. reflexivity. Qed.
+
+  Lemma consts_are_discrs_g : forall vs last inc b tbl ctbl,
+    ev last = Some b ->
+    rust_table_g t ev (b + inc) vs = Some tbl ->
+    eval_consts_g ev (gen_consts true last inc vs) = Some ctbl ->
+    ctbl = filter fl tbl.
+  Proof.
+    induction vs as [|v vs IH]; intros last inc b tbl ctbl Hb Hr Hc.
+    - cbn in Hr, Hc. inversion Hr; inversion Hc; reflexivity.
+    - cbn [rust_table_g] in Hr. cbn [gen_consts] in Hc.
+      apply obind_some in Hr as [d [Hd Hr]]. apply obind_some in Hr as [tl [Hr Htbl]].
+      inversion Htbl; subst tbl; clear Htbl.
+      destruct (vdiscr v) as [e|] eqn:Ev.
+      + apply obind_some in Hd as [d0 [He Hck]]. apply check_some in Hck as [-> HRd].
+        assert (Hr' : rust_table_g t ev (d0 + 1) vs = Some tl) by exact Hr.
+        cbn [filter]. unfold fl at 1. cbn [fst].
+        destruct (fieldless v) eqn:Fv.
+        * cbn [eval_consts_g] in Hc.
+          apply obind_some in Hc as [c [Hce Hc]]. apply obind_some in Hc as [ctl [Hc Hctbl]].
+          inversion Hctbl; subst ctbl; clear Hctbl.
+          rewrite ev_splice, He in Hce. apply sum_checked_some in Hce as [-> _].
+          rewrite Z.add_0_r. f_equal. exact (IH e 1 d0 tl ctl He Hr' Hc).
+        * exact (IH e 1 d0 tl ctbl He Hr' Hc).
+      + apply check_some in Hd as [-> HRd].
+        assert (Hr' : rust_table_g t ev (b + (inc + 1)) vs = Some tl).
+        { replace (b + (inc + 1)) with (b + inc + 1) by lia. exact Hr. }
+        cbn [filter]. unfold fl at 1. cbn [fst].
+        destruct (fieldless v) eqn:Fv.
+        * cbn [eval_consts_g] in Hc.
+          apply obind_some in Hc as [c [Hce Hc]]. apply obind_some in Hc as [ctl [Hc Hctbl]].
+          inversion Hctbl; subst ctbl; clear Hctbl.
+          rewrite ev_splice, Hb in Hce. apply sum_checked_some in Hce as [-> _].
+          f_equal. exact (IH last (inc + 1) b tl ctl Hb Hr' Hc).
+        * exact (IH last (inc + 1) b tl ctbl Hb Hr' Hc).
+  Qed.
+
+  (** the property for ANY constant evaluator that gives `(e) + k` and literals their Rust meaning:
+      arbitrary discriminant expressions, any pointer width *)
+  Theorem inverse_any_evaluator vs tbl f :
+    rust_table_g t ev 0 vs = Some tbl -> NoDup (map snd tbl) ->
+    try_from_g ev true vs = Some f ->
+    forall n v, f n = Ok v <-> (fieldless v = true /\ In (v, n) tbl).
+  Proof.
+    intros Hr ND Hf n v. unfold try_from_g, consts in Hf.
+    destruct (eval_consts_g ev (gen_consts true (ELit 0) 0 vs)) as [ctbl|] eqn:Ec; [|discriminate].
+    cbn in Hf. inversion Hf; subst f; clear Hf.
+    rewrite (consts_are_discrs_g vs (ELit 0) 0 0 tbl ctbl (proj2 (proj2 EV)) Hr Ec).
+    split.
+    - intros H. apply first_match_ok_in in H. apply filter_In in H as [HI HF]. split; [exact HF | exact HI].
+    - intros [HF HI]. apply first_match_nodup; [apply NoDup_map_filter; exact ND | apply filter_In; split; [exact HI | exact HF]].
+  Qed.
+
+  Theorem err_any_evaluator vs f n m : try_from_g ev true vs = Some f -> f n = Err m -> m = n.
+  Proof.
+    unfold try_from_g. destruct (eval_consts_g ev (consts true vs)); cbn; intros H; inversion H; subst. apply first_match_err.
+  Qed.
+End AnyEvaluatorProofs.
+
+(** the model's own evaluator is such an evaluator, and the abstract definitions specialise to the concrete ones *)
+Lemma eval_is_evaluator t : evaluator_ok t (eval t).
+Proof.
+  split; [|split].
+  - intros a k. reflexivity.
+  - intros a. reflexivity.
+  - cbn [eval]. apply check_in_range, in_range_0.
+Qed.
+
+Lemma rust_table_g_eval t : forall vs next, rust_table_g t (eval t) next vs = rust_table t next vs.
+Proof.
+  induction vs as [|v vs IH]; intros next; [reflexivity|]. cbn [rust_table_g rust_table].
+  destruct (match vdiscr v with Some e => obind (eval t e) (check t) | None => check t next end); cbn [obind]; [|reflexivity].
+  rewrite IH. reflexivity.
+Qed.
+
+Lemma eval_consts_g_eval t : forall cs, eval_consts_g (eval t) cs = eval_consts t cs.
+Proof.
+  induction cs as [|[v e] cs IH]; [reflexivity|]. cbn [eval_consts_g eval_consts]. rewrite IH. reflexivity.
+Qed.
+
+Theorem any_evaluator_instance t :
+  evaluator_ok t (eval t) /\
+  (forall vs, rust_table_g t (eval t) 0 vs = rust_discrs t vs) /\
+  (forall paren vs, try_from_g (eval t) paren vs = try_from paren t vs).
+Proof.
+  split; [apply eval_is_evaluator|]. split.
+  - intros vs. apply rust_table_g_eval.
+  - intros paren vs. unfold try_from_g, try_from. rewrite eval_consts_g_eval. reflexivity.
+Qed.
+
+(** non-vacuity: an evaluator that knows nothing about `<<` except one opaque value *)
+Definition opaque_ev (e : expr) : option Z :=
+  (fix go (e : expr) : option Z :=
+     match e with
+     | ELit z => check U8 z
+     | EParen a => go a
+     | EBin Add a (ELit k) => obind (go a) (fun x => obind (check U8 k) (fun y => check U8 (x + y)))
+     | EBin Shl _ _ => Some 40            (* "whatever rustc says" *)
+     | _ => None
+     end) e.
+
+Example opaque_evaluator_example :
+  evaluator_ok U8 opaque_ev /\
+  exists tbl f, rust_table_g U8 opaque_ev 0 P_enum = Some tbl /\ NoDup (map snd tbl) /\
+                try_from_g opaque_ev true P_enum = Some f /\ f 41 = Ok P_B /\ f 40 = Ok P_A /\ f 5 = Err 5.
+Proof.
+  split.
+  - split; [|split]; [intros a k; reflexivity | intros a; reflexivity | reflexivity].
+  - eexists. eexists. split; [reflexivity|]. split; [apply nodupb_sound; reflexivity|]. split; [reflexivity|]. repeat split.
+Qed.
+
+(* ------------------------------------------------------------------ which items get an impl *)
+
+Lemma parse_tf_some_disc : forall attrs,
+  parse_tf (Some CDiscriminant) attrs = Some (Some CDiscriminant) -> attrs = [].
+Proof. intros [|a rest]; [reflexivity|]. destruct a; cbn; discriminate. Qed.
+
+Lemma parse_tf_types : forall attrs m, parse_tf (Some CTypes) attrs = Some m -> m = Some CTypes.
+Proof.
+  induction attrs as [|a rest IH]; intros m H; cbn in H; [inversion H; reflexivity|].
+  destruct a; cbn in H; try discriminate. apply IH. exact H.
+Qed.
+
+(** an impl is emitted exactly for an enum with an acceptable repr and exactly one `#[try_from(repr)]` *)
+Theorem impl_iff k r tf :
+  expand_decision k r tf = DImpl <-> (k = KEnum /\ repr_of r <> None /\ tf = [TARepr]).
+Proof.
+  unfold expand_decision. split.
+  - destruct k; try discriminate. destruct (repr_of r) as [t|]; [|discriminate].
+    destruct tf as [|a rest]; [discriminate|]. destruct a; cbn [parse_tf]; try discriminate.
+    + destruct (parse_tf (Some CDiscriminant) rest) as [[[|]|]|] eqn:E; try discriminate.
+      intros _. apply parse_tf_some_disc in E. subst. split; [reflexivity|]. split; [discriminate | reflexivity].
+    + destruct (parse_tf (Some CTypes) rest) as [m|] eqn:E; [|discriminate].
+      apply parse_tf_types in E. subst m. discriminate.
+  - intros [-> [Hr ->]]. destruct (repr_of r); [reflexivity | contradiction].
+Qed.
+
+(** nothing at all is emitted exactly for an enum (with an acceptable repr) without any `#[try_from]` *)
+Theorem no_impl_iff k r tf :
+  expand_decision k r tf = DNoImpl <-> (k = KEnum /\ repr_of r <> None /\ tf = []).
+Proof.
+  unfold expand_decision. split.
+  - destruct k; try discriminate. destruct (repr_of r) as [t|]; [|discriminate].
+    destruct tf as [|a rest]; [intros _; split; [reflexivity|]; split; [discriminate | reflexivity]|].
+    destruct a; cbn [parse_tf]; try discriminate.
+    + destruct (parse_tf (Some CDiscriminant) rest) as [[[|]|]|] eqn:E; try discriminate.
+      exfalso. clear -E. destruct rest as [|a rest]; [cbn in E; discriminate|]. destruct a; cbn in E; discriminate.
+    + destruct (parse_tf (Some CTypes) rest) as [m|] eqn:E; [|discriminate].
+      apply parse_tf_types in E. subst m. discriminate.
+  - intros [-> [Hr ->]]. destruct (repr_of r); [reflexivity | contradiction].
+Qed.
+
+Example decision_examples :
+  expand_decision KEnum [[HInt U8]] [TARepr] = DImpl /\
+  expand_decision KEnum [] [] = DNoImpl /\
+  expand_decision KEnum [] [TARepr; TARepr] = DError /\
+  expand_decision KEnum [] [TAReprTypes; TAReprTypes] = DError /\
+  expand_decision KEnum [[HInt U8]; [HInt U8]] [TARepr] = DError /\
+  expand_decision KStruct [] [TARepr] = DError.
+Proof. repeat split. Qed.
+
+(* ------------------------------------------------------------------ impl header with bounds, defaults, where-clause *)
+
+Definition header_full_ok (h : header_full) (repr_name enum_name : str) (ps : list gparam_decl) (w : str) : Prop :=
+  hf_params h = map (fun p => (gp p, gp_bounds p)) ps /\     (* every parameter, with its bounds, without default *)
+  hf_trait_arg h = (repr_name, []) /\
+  hf_self h = (enum_name, map (fun p => garg (gp p)) ps) /\
+  hf_where h = w.
+
+Theorem header_full_iff on_repr r e ps w :
+  header_full_ok (gen_header_full on_repr r e ps w) r e ps w <-> (on_repr = false \/ ps = []).
+Proof.
+  unfold header_full_ok, gen_header_full. destruct on_repr; cbn; split.
+  - intros [_ [H _]]. right. inversion H as [H1]. destruct ps; [reflexivity | discriminate].
+  - intros [H|H]; [discriminate|]. subst ps. cbn. auto.
+  - intros _. left; reflexivity.
+  - intros _. auto.
+Qed.
+
+Theorem header_full_on_enum on_repr : on_repr = false -> forall r e ps w,
+  header_full_ok (gen_header_full on_repr r e ps w) r e ps w.
+Proof. intros H r e ps w. apply header_full_iff. left. exact H. Qed.
+
+(** the simple header is the full one with bounds, defaults and where-clause forgotten *)
+Theorem header_full_forgets on_repr r e ps w :
+  let h := gen_header_full on_repr r e ps w in
+  gen_header on_repr r e (map gp ps) =
+  {| h_impl_params := map fst (hf_params h); h_trait_arg := hf_trait_arg h; h_self := hf_self h |}.
+Proof.
+  unfold gen_header_full, gen_header. destruct on_repr; cbn; rewrite !map_map; reflexivity.
+Qed.
+
+Definition ex_ps : list gparam_decl :=
+  [{| gp := GLifetime [39;97]%N; gp_bounds := []; gp_default := None |};
+   {| gp := GType [84]%N; gp_bounds := [67;108;111;110;101]%N; gp_default := Some [117;56]%N |};
+   {| gp := GConst [78]%N; gp_bounds := []; gp_default := Some [52]%N |}].
+
+(** `#[repr(u8)] enum E<'a, T: Clone = u8, const N: usize = 4> where T: Copy` *)
+Example header_full_example :
+  header_full_ok (gen_header_full false [117;56]%N [69]%N ex_ps [84;58;67;111;112;121]%N)
+                 [117;56]%N [69]%N ex_ps [84;58;67;111;112;121]%N.
+Proof. apply header_full_on_enum. reflexivity. Qed.
